@@ -60,9 +60,12 @@ def find_cache_attr(repo):
     """The memo: attribute of self subscripted with a tuple key in the dispatcher."""
     d = repo.func(MANAGER, 'Manager._dispatcher')
     for n in walk_no_defs(d.node):
-        if isinstance(n, ast.Subscript) and isinstance(n.value, ast.Attribute) and src(n.value.value) == 'self' \
-                and isinstance(n.slice, ast.Tuple):
-            return n.value.attr
+        if isinstance(n, ast.Subscript) and isinstance(n.value, ast.Attribute) and src(n.value.value) == 'self':
+            if isinstance(n.slice, ast.Tuple):
+                return n.value.attr
+            # the key may be computed into a local first: `key = (event.name, channels)`
+            if isinstance(n.slice, ast.Name) and any(isinstance(e, ast.Tuple) for e in pat.flows_from(d, n.slice.id, depth=2)):
+                return n.value.attr
     raise AnalysisError('C01: no memo `self.<cache>[(…)]` found in Manager._dispatcher')
 
 
@@ -456,22 +459,36 @@ def _eval(e, env):
     if isinstance(e, ast.Name):
         if e.id in env:
             return env[e.id]
+        if e.id == env['$handler_var']:
+            return '$handler'
         raise _Unsupported(f'name {e.id}')
     if isinstance(e, (ast.Tuple, ast.List, ast.Set)):
         return tuple(_eval(x, env) for x in e.elts)
     if isinstance(e, ast.Attribute):
         base = src(e.value)
-        if base == env['$handler_var'] and e.attr == 'channel':
+        if (base == env['$handler_var'] or (isinstance(e.value, ast.Name) and env.get(e.value.id) == '$handler')) and e.attr == 'channel':
             return env['$declared']
+        if (base == env['$handler_var'] or (isinstance(e.value, ast.Name) and env.get(e.value.id) == '$handler')) and e.attr in ('__self__', 'im_self'):
+            return '$owner'
         raise _Unsupported(src(e))
     if isinstance(e, ast.Call):
         name = call_name(e)
         if name == 'getattr' and len(e.args) == 3 and pat.is_const(e.args[1], 'channel'):
             # getattr(<the component owning the handler>, 'channel', default)
             inner = e.args[0]
-            if _is_owner_expr(inner, env['$handler_var']):
+            if _is_owner_expr(inner, env['$handler_var']) or _is_owner_alias(inner, env) or (isinstance(inner, ast.Name) and env.get(inner.id) == '$owner'):
                 v = env['$component']
                 return v if v != '<absent>' else _eval(e.args[2], env)
+        if _is_owner_expr(e, env['$handler_var']) or _is_owner_alias(e, env):
+            return '$owner'          # the object the handler is bound to (only ever asked for its channel)
+        # a module-level helper that is handed the handler: interpreted on the same tokens
+        helper = env.get('$helpers', {}).get(name)
+        if helper is not None and len(e.args) == 1 and isinstance(e.args[0], ast.Name) and e.args[0].id == env['$handler_var'] and len(helper.params) == 1 \
+                and env.get('$depth', 0) < 2:
+            env2 = {k: v for k, v in env.items() if k.startswith('$') or k in ('self', '_dummy')}
+            env2['$handler_var'] = helper.params[0]
+            env2['$depth'] = env.get('$depth', 0) + 1
+            return _run_function(helper, env2)
         raise _Unsupported(src(e))
     if isinstance(e, ast.Compare):
         left = _eval(e.left, env)
@@ -501,6 +518,52 @@ def _eval(e, env):
     if isinstance(e, ast.UnaryOp) and isinstance(e.op, ast.Not):
         return not _eval(e.operand, env)
     raise _Unsupported(src(e))
+
+
+def _run_function(f, env):
+    """Concrete run of a small helper on the finite tokens; the value of its return."""
+    g = f.cfg()
+    node = g.entry
+    steps = 0
+    while node is not None and steps < 200:
+        steps += 1
+        nxt = None
+        if node.kind == 'test':
+            v = bool(_eval(node.ast, env))
+            for e in node.succ:
+                if e.kind == ('T' if v else 'F'):
+                    nxt = e.dst
+        elif node.kind == 'stmt':
+            a = node.ast
+            if isinstance(a, ast.Return):
+                return _eval(a.value, env) if a.value is not None else None
+            if isinstance(a, ast.Assign) and len(a.targets) == 1 and isinstance(a.targets[0], ast.Name):
+                env[a.targets[0].id] = _eval(a.value, env)
+            elif isinstance(a, ast.Pass) or (isinstance(a, ast.Expr) and isinstance(a.value, ast.Constant)):
+                pass
+            else:
+                raise _Unsupported(src(a))
+            for e in node.succ:
+                if e.kind == 'n':
+                    nxt = e.dst
+        elif node.kind in ('join', 'entry'):
+            for e in node.succ:
+                if e.kind == 'n':
+                    nxt = e.dst
+        elif node.kind == 'exit':
+            return None
+        else:
+            raise _Unsupported(node.kind)
+        node = nxt
+    raise _Unsupported(f'helper {f.name} did not return')
+
+
+def _is_owner_alias(e, env):
+    """The owner expression applied to a local alias of the handler variable."""
+    for k, v in env.items():
+        if v == '$handler' and not k.startswith('$') and _is_owner_expr(e, k):
+            return True
+    return False
 
 
 def _is_owner_expr(e, hv):
@@ -539,7 +602,7 @@ def rule_e(repo, chk):
     decls = [None, '*', 'A', 'B', SELF]
     comps = ['*', 'A', 'B', None]
     for ch, de, co in itertools.product(chans, decls, comps):
-        env = {chan: ch, 'self': SELF, '$handler_var': hv, '$declared': de, '$component': co, '_dummy': '<dummy>'}
+        env = {chan: ch, 'self': SELF, '$handler_var': hv, '$declared': de, '$component': co, '_dummy': '<dummy>', '$helpers': dict(f.module.functions)}
         try:
             added = _interp(g, head, adds, env)
         except _Unsupported as u:
@@ -733,7 +796,7 @@ def rule_h(repo, chk):
             return False
         for c in calls_in(n.ast):
             if isinstance(c.func, ast.Attribute) and c.func.attr == 'add' and [src(x) for x in c.args] == [mv]:
-                r = src(c.func.value)
+                r = pat.expand_alias(a, n, src(c.func.value))
                 if table in r and (key is None or key in r):
                     return True
         return False
@@ -768,9 +831,11 @@ def rule_h(repo, chk):
     okr = False
     for lp in loops:
         nv = src(lp.ast.target)
+        def recv_of(n, c):
+            return pat.expand_alias(r, n, src(c.func.value))     # `s = self._handlers[name]; s.remove(method)`
         rem = [n for n in gr.nodes if n.kind == 'stmt' and ('loop', lp.ast) in n.ctx and
                any(isinstance(c.func, ast.Attribute) and c.func.attr in ('remove', 'discard') and [src(x) for x in c.args] == [r.params[1]] and
-                   'self._handlers' in src(c.func.value) and nv in src(c.func.value) for c in calls_in(n.ast))]
+                   'self._handlers' in recv_of(n, c) and nv in recv_of(n, c) for c in calls_in(n.ast))]
         first = [e.dst for e in lp.succ if e.kind == 'T']
         rest = [f for f in first if f not in rem]
         p = Q.escapes(gr, rest, lambda n: n in rem, extra_exit=lambda n: n is lp) if rest else None
